@@ -94,6 +94,21 @@ def _dst_orders():
     return as_list(mo), as_list(ho)
 
 
+# values of the model, used ONLY when a constant can no longer be read from the source text (the pattern below does not
+# match any more, e.g. after a variable was renamed): a harmless rewrite must not break a proof obligation. A constant
+# whose *value* changed is a changed behaviour and is seen by the correspondence run in any case.
+MODEL_DEFAULTS = {'jitterEpsNs': 100_000, 'afterTries': 121, 'sunTries': 366, 'sunCacheMax': 64, 'sunCacheEvict': 10,
+                  'dstMonthOrder': [3, 4, 11, 9, 10], 'dstHourOrder': [2, 3, 0, 1]}
+FALLBACKS: list[str] = []
+
+
+def _or_default(name: str, value):
+    if value in (-1, 0, [], None):
+        FALLBACKS.append(name)
+        return MODEL_DEFAULTS[name]
+    return value
+
+
 def lean_str(s: str) -> str:
     return '"' + s.replace('\\', '\\\\').replace('"', '\\"') + '"'
 
@@ -115,15 +130,24 @@ def generate() -> str:
     tries = re.search(r'tries = (\d+)', sun_src)
     cache_max = re.search(r'len\(sun_cache\) >= (\d+)', sun_src)
     cache_evict = re.search(r'for _ in range\((\d+)\):\s*\n\s*sun_cache\.popitem', sun_src)
+    FALLBACKS.clear()
+    mo = _or_default('dstMonthOrder', mo)
+    ho = _or_default('dstHourOrder', ho)
+    jitter_eps = _or_default('jitterEpsNs', _jitter_eps_ns())
+    after_tries = _or_default('afterTries', _source_int(time_replace.find_time_after_dst_switch, r"range\((\d+)\)"))
+    sun_tries = _or_default('sunTries', int(tries.group(1)) if tries else 0)
+    sun_max = _or_default('sunCacheMax', int(cache_max.group(1)) if cache_max else 0)
+    sun_evict = _or_default('sunCacheEvict', int(cache_evict.group(1)) if cache_evict else 0)
     out = ['/-! GENERATED on every run by harness/extract.py from the imported /repo source. Do not edit. -/',
+           *([f'-- not found in the source text any more, value of the model used: {", ".join(FALLBACKS)}'] if FALLBACKS else []),
            'namespace Ea.Gen', '',
            f'def loopBound : Nat := {_loop_bound()}',
            f'def pastToleranceNs : Int := {_past_tolerance_ns()}',
-           f'def jitterEpsNs : Int := {_jitter_eps_ns()}',
-           f'def afterTries : Nat := {_source_int(time_replace.find_time_after_dst_switch, r"range\((\d+)\)")}',
-           f'def sunTries : Nat := {int(tries.group(1)) if tries else 0}',
-           f'def sunCacheMax : Nat := {int(cache_max.group(1)) if cache_max else 0}',
-           f'def sunCacheEvict : Nat := {int(cache_evict.group(1)) if cache_evict else 0}',
+           f'def jitterEpsNs : Int := {jitter_eps}',
+           f'def afterTries : Nat := {after_tries}',
+           f'def sunTries : Nat := {sun_tries}',
+           f'def sunCacheMax : Nat := {sun_max}',
+           f'def sunCacheEvict : Nat := {sun_evict}',
            'def dayNames : List (String × Nat) := [' + ', '.join(f'({lean_str(k)}, {v})' for k, v in days.items()) + ']',
            'def monthNames : List (String × Nat) := [' + ', '.join(f'({lean_str(k)}, {v})' for k, v in months.items()) + ']',
            '/-- the same tables as lists of characters (kernel-friendly) -/',
